@@ -145,14 +145,20 @@ def spec(prop, tier):
         for fixed in ("6", "14", "30") + (() if q else ("7", "15", "31", "62")):
             for l in ("F1", "F3", "F5"):
                 runs.append(R(l, "AE", "proxy", nmax=2, cmax=1, bmax=4, depth=2 if q else 3, junk=1, fixed=fixed))
+        # iterator objects that outlive structural changes of their vector (erase, reserve, copy/move assignment from a
+        # vector with other fixed sizes, swap) and are assigned a new position afterwards
+        runs += pair_runs(["F1", "F3", "V1", "V3", "M2"] if q else ["P1", "F1", "F3", "F5", "V1", "V3", "V5", "M1", "M2"], ["AE", "NP"], tier,
+                          4 if q else 5)
+        runs += [R(l, "AE", "hist", depth=4 if q else 5, junk=1) for l in ("F1", "F3", "V1", "V3", "M2")]
         return runs
     if prop == "C12":
         if q:
             return elem_runs(["F3", "V1", "V3"], ["AE"], tier, 3) + \
                 [r for r in elem_runs(["F3", "V1", "V3"], ["NP"], tier, 4) if r["arena1"] == 1] + \
                 [r for r in elem_runs(["F3", "V1", "V3"], ["NP"], tier, 3) if r["arena1"] == 0] + \
-                elem_runs(["F1", "F4", "V5", "M1", "M2", "M3"], ["AE", "NP"], tier, 3)
-        return elem_runs(["F1", "F3", "F4", "V1", "V3", "V5", "M2", "M3"], ["AE", "NP", "PP"], tier, 4)
+                elem_runs(["F1", "F4", "V5", "M1", "M2", "M3"], ["AE", "NP"], tier, 3) + \
+                elem_runs(["V1", "V3", "F3"], ["PP", "T100"], tier, 3)
+        return elem_runs(["F1", "F3", "F4", "V1", "V3", "V5", "M2", "M3"], ["AE", "NP", "PP", "T100", "T010"], tier, 4)
     if prop == "C17":
         lists = ["F1", "F3", "V1", "V3"]
         allocs = ["AE", "NP", "PP"]
